@@ -388,7 +388,7 @@ func (g *Gen) ghostTerm(s *State, name string) string {
 	if t, ok := s.ghost[name]; ok {
 		return t
 	}
-	switch g.ghostSorts[name] {
+	switch g.ghostSort(name) {
 	case "Bool":
 		return "false"
 	}
